@@ -207,7 +207,7 @@ func (f *family) ladder(thorough bool) []int {
 	if thorough {
 		top = 1 << 23
 	}
-	for n := 1 << 8; n <= top; n <<= 1 {
+	for n := 1 << 4; n <= top; n <<= 1 {
 		if f.maxN > 0 && n > f.maxN {
 			break
 		}
